@@ -44,6 +44,8 @@ struct Frame {
 
 struct Cx {
     prefix: Vec<u16>,
+    /// Length of the work item's own prefix (the part shared by its whole subtree).
+    root_len: usize,
     frames: Vec<Frame>,
     spent: (u32, u32),
     record: bool,
@@ -142,6 +144,13 @@ pub fn spent() -> (u32, u32) {
 /// in territory that no earlier execution of this worker has been through.
 pub fn past_prefix() -> bool {
     CX.with(|c| c.borrow().as_ref().map(|cx| cx.frames.len() >= cx.prefix.len()).unwrap_or(true))
+}
+
+/// True once the execution has consumed the prefix of its *work item* (in a
+/// breadth-first exploration: the choice vector of the frontier state it
+/// expands); everything from here on is the step being explored.
+pub fn past_root() -> bool {
+    CX.with(|c| c.borrow().as_ref().map(|cx| cx.frames.len() >= cx.root_len).unwrap_or(true))
 }
 
 /// True while the current execution records an event trace.
@@ -285,6 +294,10 @@ pub struct Stats {
     pub capped: Option<String>,
     pub machinery_errors: Vec<String>,
     pub wall_s: f64,
+    /// Breadth-first reachability: canonical states, levels, closure reached.
+    pub bfs_states: Option<u64>,
+    pub bfs_levels: Option<u64>,
+    pub bfs_closed: Option<bool>,
 }
 
 struct Shared {
@@ -297,7 +310,8 @@ struct Shared {
 }
 
 struct QueueState {
-    items: Vec<Vec<u16>>,
+    /// (prefix, length of the original work item it descends from)
+    items: Vec<(Vec<u16>, usize)>,
     active: usize,
 }
 
@@ -330,6 +344,7 @@ struct RunResult {
 fn run_one<F: Fn() -> Outcome>(
     f: &F,
     prefix: Vec<u16>,
+    root_len: usize,
     record: bool,
     states: &mut HashSet<u64>,
     states_capped: &mut bool,
@@ -338,6 +353,7 @@ fn run_one<F: Fn() -> Outcome>(
     CX.with(|c| {
         *c.borrow_mut() = Some(Cx {
             prefix,
+            root_len,
             frames: Vec::with_capacity(64),
             spent: (0, 0),
             record,
@@ -401,17 +417,106 @@ fn next_prefix(frames: &[Frame], root_len: usize, b: &Bounds) -> Option<Vec<u16>
 
 /// Explores every execution of `f` within the bounds of `cfg`.
 pub fn explore<F: Fn() -> Outcome + Sync>(cfg: &Config, f: F) -> Stats {
+    explore_from(cfg, &f, vec![Vec::new()])
+}
+
+struct BfsState {
+    visited: HashSet<u64>,
+    next: Vec<Vec<u16>>,
+}
+
+static BFS: Mutex<Option<BfsState>> = Mutex::new(None);
+
+/// Breadth-first reachability: records the canonical state `key` reached by
+/// the current execution. Returns true if it was not known before (the
+/// execution's choice vector then becomes a frontier entry of the next level).
+pub fn bfs_visit(key: u64) -> bool {
+    let choices: Vec<u16> = CX.with(|c| c.borrow().as_ref().map(|cx| cx.frames.iter().map(|f| f.chosen).collect()).unwrap_or_default());
+    let mut g = BFS.lock().unwrap();
+    match g.as_mut() {
+        Some(b) => {
+            if b.visited.insert(key) {
+                b.next.push(choices);
+                true
+            } else {
+                false
+            }
+        }
+        None => false,
+    }
+}
+
+/// True while a breadth-first exploration is running.
+pub fn bfs_active() -> bool {
+    BFS.lock().unwrap().is_some()
+}
+
+/// Level-by-level exploration of the state graph: every frontier state is
+/// re-created by replaying its choice vector, then every one-step successor is
+/// executed (the harness ends an execution after the first step past its
+/// prefix and reports the state through [`bfs_visit`]). Ends when a level
+/// discovers no new state (closure) or a cap is hit.
+pub fn explore_bfs<F: Fn() -> Outcome + Sync>(cfg: &Config, f: F) -> Stats {
+    *BFS.lock().unwrap() = Some(BfsState { visited: HashSet::new(), next: Vec::new() });
+    let start = Instant::now();
+    let mut total = Stats { name: cfg.name.clone(), bounds: Some(cfg.bounds), ..Default::default() };
+    let mut frontier: Vec<Vec<u16>> = vec![Vec::new()];
+    let mut level = 0usize;
+    let mut closed = false;
+    loop {
+        if frontier.is_empty() {
+            closed = true;
+            break;
+        }
+        let st = explore_from(cfg, &f, std::mem::take(&mut frontier));
+        total.executions += st.executions;
+        total.steps += st.steps;
+        total.choice_points += st.choice_points;
+        total.max_depth = total.max_depth.max(st.max_depth);
+        total.states += st.states;
+        total.observations += st.observations;
+        total.nontrivial_executions += st.nontrivial_executions;
+        total.nontrivial_observations += st.nontrivial_observations;
+        total.states_capped |= st.states_capped;
+        for (k, v) in st.violations {
+            total.violations.entry(k).or_insert(v);
+        }
+        if total.samples.len() < cfg.samples.max(1) {
+            total.samples.extend(st.samples);
+        }
+        total.machinery_errors.extend(st.machinery_errors);
+        if st.capped.is_some() || !total.violations.is_empty() || !total.machinery_errors.is_empty() {
+            total.capped = st.capped.map(|c| format!("{} (breadth-first level {})", c, level));
+            break;
+        }
+        frontier = std::mem::take(&mut BFS.lock().unwrap().as_mut().unwrap().next);
+        frontier.sort();
+        level += 1;
+    }
+    let b = BFS.lock().unwrap().take().unwrap();
+    total.bfs_states = Some(b.visited.len() as u64);
+    total.bfs_levels = Some(level as u64);
+    total.bfs_closed = Some(closed);
+    if !closed && total.capped.is_none() && total.violations.is_empty() {
+        total.capped = Some(format!("breadth-first exploration stopped at level {}", level));
+    }
+    total.wall_s = start.elapsed().as_secs_f64();
+    total
+}
+
+fn explore_from<F: Fn() -> Outcome + Sync>(cfg: &Config, f: &F, items: Vec<Vec<u16>>) -> Stats {
     install_panic_hook();
     let start = Instant::now();
+    let n_items = items.len();
     let shared = Shared {
         queue: Mutex::new(QueueState {
-            items: vec![Vec::new()],
+            items: items.into_iter().map(|p| { let n = p.len(); (p, n) }).collect(),
             active: 0,
         }),
         cv: Condvar::new(),
         stop: AtomicBool::new(false),
         executions: AtomicU64::new(0),
-        queue_len: AtomicUsize::new(1),
+        queue_len: AtomicUsize::new(n_items),
         waiting: AtomicUsize::new(0),
     };
     let capped: Mutex<Option<String>> = Mutex::new(None);
@@ -420,7 +525,7 @@ pub fn explore<F: Fn() -> Outcome + Sync>(cfg: &Config, f: F) -> Stats {
         let handles: Vec<_> = (0..nthreads)
             .map(|w| {
                 let shared = &shared;
-                let f = &f;
+                let f = f;
                 let capped = &capped;
                 std::thread::Builder::new()
                     .name(format!("dpmc-{}", w))
@@ -511,7 +616,7 @@ fn worker<F: Fn() -> Outcome + Sync>(
                 shared.waiting.fetch_sub(1, Ordering::Relaxed);
             }
         };
-        let Some(item) = item else { break };
+        let Some((item, item_len)) = item else { break };
         let mut root_len = item.len();
         let mut prefix = item;
         loop {
@@ -522,6 +627,7 @@ fn worker<F: Fn() -> Outcome + Sync>(
             let rr = run_one(
                 f,
                 prefix.clone(),
+                item_len,
                 want_sample,
                 &mut local.states,
                 &mut local.states_capped,
@@ -588,6 +694,7 @@ fn worker<F: Fn() -> Outcome + Sync>(
                             let r1 = run_one(
                                 f,
                                 choices.clone(),
+                                item_len,
                                 true,
                                 &mut local.states,
                                 &mut local.states_capped,
@@ -595,6 +702,7 @@ fn worker<F: Fn() -> Outcome + Sync>(
                             let r2 = run_one(
                                 f,
                                 choices.clone(),
+                                item_len,
                                 true,
                                 &mut local.states,
                                 &mut local.states_capped,
@@ -657,7 +765,7 @@ fn worker<F: Fn() -> Outcome + Sync>(
             if shared.waiting.load(Ordering::Relaxed) > 0
                 && shared.queue_len.load(Ordering::Relaxed) < cfg.threads
             {
-                let mut donated: Vec<Vec<u16>> = Vec::new();
+                let mut donated: Vec<(Vec<u16>, usize)> = Vec::new();
                 for i in root_len..rr.frames.len() {
                     let fr = &rr.frames[i];
                     let mut any = false;
@@ -665,7 +773,7 @@ fn worker<F: Fn() -> Outcome + Sync>(
                         if affordable(fr, alt, &cfg.bounds) {
                             let mut p: Vec<u16> = rr.frames[..i].iter().map(|f| f.chosen).collect();
                             p.push(alt as u16);
-                            donated.push(p);
+                            donated.push((p, item_len));
                             any = true;
                         }
                     }
@@ -703,7 +811,7 @@ pub fn replay<F: Fn() -> Outcome>(choices: &[u16], f: F) -> (Result<Outcome, Str
     install_panic_hook();
     let mut st = HashSet::new();
     let mut capped = false;
-    let rr = run_one(&f, choices.to_vec(), true, &mut st, &mut capped);
+    let rr = run_one(&f, choices.to_vec(), usize::MAX, true, &mut st, &mut capped);
     let taken = rr.frames.iter().map(|f| f.chosen).collect();
     (rr.outcome, rr.trace, taken, rr.diverged)
 }
